@@ -63,7 +63,7 @@ def payload(m, s, j, major):
     ref = 20 + 7 * m + 3 * s + 11 * j
     alt = 5 + 2 * m + 5 * s + j
     return {"mutation_id": MUT[m], "sample_id": SAM[s], "ref_counts": ref, "alt_counts": alt, "major_cn": major,
-            "minor_cn": min(major, 1), "normal_cn": 2, "tumour_content": [0.8, 1.0, 0.65][s - 1], "error_rate": 0.002}
+            "minor_cn": min(major, 1), "normal_cn": 2, "tumour_content": [0.8, 1.0, 0.65][s - 1], "error_rate": [0.002, 0.03, 0.0005][(s + m) % 3]}
 
 
 def rows_of(rec, idx=0):
